@@ -1,15 +1,15 @@
 import Model.CrashValue
 /-!
   C05 / value decoders, FIXED variant: the same definitions as Model.CrashValue instantiated with
-  `fx := true`, i.e. the code with the guards of props/C05.val.fix-*.diff applied:
-    fix-1  unmarshalList: negative length -> error                      (was reflect.MakeSlice panic)
-    fix-2  readBytes callers (unmarshalTuple / unmarshalUDT): length beyond the data -> error
-    fix-3  unmarshalTuple into []interface{}: fewer entries than tuple elements -> error
-    fix-4  unmarshalDate: 1..3 bytes -> error
-    fix-5  goType: map key type that is not comparable -> error         (was reflect.MapOf panic)
-    fix-6  unmarshalTuple (struct / slice / array): field not settable or of another type -> error;
+  `fx := true`, i.e. the code with the guards of props/C05.fix-{6,10,11,12,13,14,15}.diff applied:
+    fix-11  unmarshalList: negative length -> error                      (was reflect.MakeSlice panic)
+    fix-6  readBytes callers (unmarshalTuple / unmarshalUDT): length beyond the data -> error
+    fix-12  unmarshalTuple into []interface{}: fewer entries than tuple elements -> error
+    fix-13  unmarshalDate: 1..3 bytes -> error
+    fix-10  goType: map key type that is not comparable -> error         (was reflect.MapOf panic)
+    fix-14  unmarshalTuple (struct / slice / array): field not settable or of another type -> error;
            unmarshalUDT: unexported struct field named like a UDT field -> error
-    fix-7  unmarshalList / unmarshalMap: element count that the remaining bytes cannot hold -> error
+    fix-15  unmarshalList / unmarshalMap: element count that the remaining bytes cannot hold -> error
            BEFORE reflect.MakeSlice / MakeMapWithSize (allocation bound; outcomes unchanged)
   NOT listed in props/C05.json until the fixes are committed: the integrator switches
   `Driver.C05` from `CrashValue.answer` to `CrashValueFixed.answer` then.
